@@ -20,6 +20,7 @@ import (
 	"sort"
 	"strings"
 	"sync"
+	"sync/atomic"
 	"time"
 
 	"github.com/cosmos/iavl"
@@ -120,7 +121,7 @@ func (s *session) concOp(args []string, keys [][]byte) string {
 	done := make(chan string, 1)
 	yieldMu.Lock()
 	iavl.VerifYield = func(p string) {
-		if strings.HasPrefix(p, "export:") {
+		if strings.HasPrefix(p, "export:") || strings.HasPrefix(p, "iter:") {
 			return
 		}
 		at <- p
@@ -296,6 +297,74 @@ func (s *session) pinPrune(v, n int64, where string, keys [][]byte) string {
 	return "pruned; export delivered a shorter or different stream as complete"
 }
 
+// iterRace: a reader of the latest version v has decided to use the persisted index (it is parked
+// between that check and the creation of the iterator) while the writer commits version v+1; the
+// reader must still iterate exactly the contents of v.
+func (s *session) iterRace() string {
+	t := s.tree
+	v := t.Version()
+	it, err := t.GetImmutable(v)
+	if err != nil || v == 0 {
+		return s.exec([]string{"save"}) + " ## iter skipped"
+	}
+	want := drain(it.Iterator(nil, nil, true))
+	at := make(chan struct{}, 1)
+	resume := make(chan struct{})
+	var parked int32
+	yieldMu.Lock()
+	iavl.VerifYield = func(p string) {
+		if p == "iter:checked" && atomic.CompareAndSwapInt32(&parked, 0, 1) {
+			at <- struct{}{}
+			<-resume
+		}
+	}
+	yieldMu.Unlock()
+	got := make(chan string, 1)
+	go func() {
+		defer func() {
+			if r := recover(); r != nil {
+				got <- fmt.Sprint("panic ", r)
+			}
+		}()
+		got <- drain(it.Iterator(nil, nil, true))
+	}()
+	reached := false
+	select {
+	case <-at:
+		reached = true
+	case g := <-got:
+		// the reader did not take the index path (index disabled): nothing to race
+		yieldMu.Lock()
+		iavl.VerifYield = nil
+		yieldMu.Unlock()
+		res := s.exec([]string{"save"})
+		if g != want {
+			return res + " ## iter reader differs without any writer"
+		}
+		return res + " ## iter no-index ok"
+	case <-time.After(10 * time.Second):
+		return "hang"
+	}
+	_ = reached
+	res := s.exec([]string{"save"}) // the writer commits v+1 (its own index reads pass: parked is set)
+	resume <- struct{}{}
+	g := <-got
+	yieldMu.Lock()
+	iavl.VerifYield = nil
+	yieldMu.Unlock()
+	if g != want {
+		a, b := want, g
+		if len(a) > 80 {
+			a = a[:80]
+		}
+		if len(b) > 80 {
+			b = b[:80]
+		}
+		return fmt.Sprintf("%s ## iter reader of version %d parked after the index check iterates %s instead of %s", res, v, b, a)
+	}
+	return res + " ## iter ok"
+}
+
 func runConc(path string) {
 	f, err := os.Open(path)
 	if err != nil {
@@ -340,6 +409,8 @@ func runConc(path string) {
 		switch {
 		case (args[0] == "save" || args[0] == "prune") && s.tree != nil:
 			res = guarded(out, func() string { return s.concOp(args, keys) })
+		case args[0] == "iterrace" && s.tree != nil:
+			res = guarded(out, func() string { return s.iterRace() })
 		case args[0] == "pinprune" && s.tree != nil:
 			res = guarded(out, func() string {
 				return "pin ## " + s.pinPrune(atoi(args[1]), atoi(args[2]), args[3], keys)
